@@ -937,6 +937,30 @@ func gen(c *lib.Ctx, rng *rand.Rand) []c08case {
 			}
 		}
 	}
+	// URL-escaped characters in every path position: directly after the asset path, inside
+	// configuration values, inside representation and segment names, in MPD names (oracle only:
+	// escapes are outside the model's path domain)
+	{
+		escapes := []string{"%3F", "%3f", "%23", "%2F", "%2f", "%25", "%00", "%20", "%2B", "%5C", "%7B", "%0A", "%C3%A4", "%", "%zz", "%3"}
+		shapes := []string{"testpic_2s@.m4s", "testpic_2s@", "testpic_2s@.mpd", "testpic_2s@/V300/45.m4s", "testpic_2s@Manifest.mpd", "testpic_2s/@V300/45.m4s",
+			"testpic_2s/V300@/45.m4s", "testpic_2s/V3@00/45.m4s", "testpic_2s/V300/@45.m4s", "testpic_2s/V300/45@.m4s", "testpic_2s/V300/45.m4s@", "testpic_2s/V300/45.m@4s",
+			"testpic_2s/Manifest@.mpd", "testpic_2s/Manifest.mpd@", "testpic_2s/V300/init@.mp4", "testpic_2@s/V300/45.m4s", "@testpic_2s/V300/45.m4s",
+			"tsbd_3@0/testpic_2s/Manifest.mpd", "tsbd@_30/testpic_2s/Manifest.mpd", "traffic_u10@/testpic_2s/bu0/V300/45.m4s", "traffic_u10/testpic_2s@.m4s", "traffic_u10/testpic_2s/bu0@/V300/45.m4s",
+			"statuscode_[{cycle:8,rsq:1,code:404}]@/testpic_2s/V300/45.m4s", "timesubsstpp_en@/testpic_2s/timestpp-en/45.m4s", "timesubsstpp_en/testpic_2s/timestpp-en@/45.m4s",
+			"annexI_a=b@/testpic_2s/Manifest.mpd", "drm_foo@/testpic_2s/V300/45.m4s", "chunkdur_1/testpic_2s@.m4s", "segtimeline_1/testpic_2s/V300/8100000@.m4s"}
+		for si, sh := range shapes {
+			for ei, e := range escapes {
+				if !c.Thorough() && ei >= 8 && (si+ei)%4 != 0 {
+					continue
+				}
+				u := "/livesim2/" + strings.ReplaceAll(sh, "@", e)
+				add(c08case{Group: "escapes", Expect: "deliberate", Why: "URL-escaped character in the path", Req: c08req{Kind: "live", Method: "GET", URL: u + "?nowMS=100000"}})
+				if si%5 == 0 {
+					add(c08case{Group: "escapes", Expect: "deliberate", Why: "URL-escaped character in the path", Req: c08req{Kind: "router", Method: "GET", URL: "/patch" + u + "?publishTime=1970-01-01T00:01:30Z&nowMS=100000"}})
+				}
+			}
+		}
+	}
 	// numbers around the live edge and far away, each representation
 	for _, rep := range []string{"V300", "A48"} {
 		for _, nr := range []int{0, 1, 13, 14, 15, 20, 44, 45, 48, 49, 50, 51, 60, 1000, 4294967295} {
@@ -1176,6 +1200,72 @@ func gen(c *lib.Ctx, rng *rand.Rand) []c08case {
 	}
 	for _, l := range lics {
 		add(c08case{Group: "licence", Req: c08req{Kind: "live", Method: "POST", URL: l.url, Body: []byte(l.body)}, Expect: l.exp, Why: l.why, Model: l.m})
+	}
+	// key ids of every decoded length 0..64, both alphabets, padding variants, many and mixed kids
+	{
+		mk := func(n int, good bool) []byte {
+			b := make([]byte, n)
+			for i := range b {
+				b[i] = byte(0xf8 + i%7) // bytes whose base64 uses '+' and '/' resp. '-' and '_'
+			}
+			if good && n >= 3 {
+				copy(b, []byte{0x28, 0x80, 0xfe})
+			}
+			return b
+		}
+		// what the handler makes of a kid string: '-','_' -> '+','/', padded to a multiple of 4, standard decoding, 16 bytes
+		view := func(k string) []int {
+			x := strings.NewReplacer("-", "+", "_", "/").Replace(k)
+			if m := len(x) % 4; m != 0 {
+				x += strings.Repeat("=", 4-m)
+			}
+			b, err := base64.StdEncoding.DecodeString(x)
+			if err != nil || len(b) != 16 {
+				return nil
+			}
+			return ints(b)
+		}
+		post := func(kids []string) {
+			var q, views = []string{}, [][]int{}
+			for _, k := range kids {
+				jb, _ := json.Marshal(k)
+				q = append(q, string(jb))
+				views = append(views, view(k))
+			}
+			body := `{"kids":[` + strings.Join(q, ",") + `],"type":"temporary"}`
+			add(c08case{Group: "licence-kids", Expect: "deliberate", Why: "licence request", Req: c08req{Kind: "live", Method: "POST", URL: "/livesim2/eccp_cenc/testpic_2s/eccp.json", Body: []byte(body)},
+				Model: &modelReq{Kind: "license", SuffixOK: true, JSONOK: true, Kids: views}})
+		}
+		for n := 0; n <= 64; n++ {
+			if !c.Thorough() && n > 24 && n%8 != 0 && n != 63 {
+				continue
+			}
+			for _, good := range []bool{true, false} {
+				raw := mk(n, good)
+				std := base64.StdEncoding.EncodeToString(raw)
+				variants := []string{strings.TrimRight(std, "="), strings.NewReplacer("+", "-", "/", "_").Replace(strings.TrimRight(std, "="))}
+				if c.Thorough() || n%4 == 0 || n == 16 || n == 17 || n == 23 {
+					variants = append(variants, std, std+"=", std+"==", " "+std)
+				}
+				for _, v := range variants {
+					post([]string{v})
+				}
+			}
+		}
+		okKid := strings.TrimRight(base64.StdEncoding.EncodeToString(mk(16, true)), "=")
+		long := strings.TrimRight(base64.StdEncoding.EncodeToString(mk(40, true)), "=")
+		short := strings.TrimRight(base64.StdEncoding.EncodeToString(mk(5, true)), "=")
+		many := make([]string, 200)
+		for i := range many {
+			many[i] = okKid
+		}
+		post(many)
+		post([]string{okKid, long})
+		post([]string{okKid, short, okKid})
+		post([]string{long, okKid})
+		post([]string{okKid, "", okKid})
+		post([]string{okKid, "****", long})
+		post([]string{strings.Repeat("A", 100000)})
 	}
 	add(c08case{Group: "licence", Req: c08req{Kind: "router", Method: "POST", URL: "/eccp.json", Body: []byte(`{"kids":["` + b64(kidForeign) + `"]}`)}, Expect: "4xx", Why: "key id that livesim2 did not issue"})
 	add(c08case{Group: "licence", Req: c08req{Kind: "router", Method: "POST", URL: "/anything", Body: []byte(`{"kids":["` + b64(kidOK) + `"]}`)}, Expect: "4xx", Why: "not a licence URL"})
